@@ -25,12 +25,12 @@ Section GlueCached.
 End GlueCached.
 
 (* ---- (b) src/tree/taffy_tree.rs: TaffyView::compute_child_layout ---- *)
-Inductive GDisplay := GD_Block | GD_Flex | GD_Grid | GD_None.                (* src/style/mod.rs: enum Display *)
+Inductive GlueDisplay := GD_Block | GD_Flex | GD_Grid | GD_None.                (* src/style/mod.rs: enum Display *)
 Inductive GKind := GK_hidden | GK_block | GK_flex | GK_grid | GK_leaf.
 (* let has_children = tree.child_count(node) > 0 *)
 Definition glue_has_children (child_count : nat) : bool := Nat.ltb 0 child_count.
 (* match (display_mode, has_children): the table, arm by arm, in source order *)
-Definition glue_dispatch (display_mode : GDisplay) (has_children : bool) : GKind :=
+Definition glue_dispatch (display_mode : GlueDisplay) (has_children : bool) : GKind :=
   match display_mode, has_children with
   | GD_None, _ => GK_hidden
   | GD_Block, true => GK_block
@@ -44,7 +44,7 @@ Section GlueChild.
   Variable is_hidden_mode : In -> bool.                (* inputs.run_mode == RunMode::PerformHiddenLayout *)
   Variable compute_hidden_layout : Tree -> Node -> option (Tree * Out).
   Variable compute_cached_layout : Tree -> Node -> In -> (Tree -> Node -> In -> option (Tree * Out)) -> option (Tree * Out).
-  Variable display_of : Tree -> Node -> GDisplay.      (* tree.taffy.nodes[node.into()].style.display *)
+  Variable display_of : Tree -> Node -> GlueDisplay.      (* tree.taffy.nodes[node.into()].style.display *)
   Variable child_count : Tree -> Node -> nat.
   Variables compute_block_layout compute_flexbox_layout compute_grid_layout compute_leaf_layout : Tree -> Node -> In -> option (Tree * Out).
   Definition glue_compute_uncached (tree : Tree) (node : Node) (inputs : In) : option (Tree * Out) :=
